@@ -133,13 +133,6 @@ def readMeta (h : Loc → Option Cell) (l : Loc) : Option Nat :=
   | some (.reg m) => m
   | _ => none
 
-/-- Value graph below a `UVal`, to a bounded depth (fuel) — what a caller can see of a result/default. -/
-inductive Tree
-  | leaf (n : Nat)
-  | nd (l : Loc) (kids : List (Nat × Tree))
-  | cut
-deriving Repr
-
 /-- Everything that determines a schema's behaviour (Parse verdicts and results, flags, ToJSONSchema
     document): the contents reachable from it.  Locations themselves are *not* part of the observation
     except for Shape (identities of the field schemas, which are immutable references). -/
@@ -441,5 +434,68 @@ structure Doc where
 
 def docOfObs (sizeLast : Bool) (o : Obs) (ord : VBag) : Doc :=
   { kind := o.kind, flags := o.flags, reg := o.reg, values := o.values, shape := o.shape, kw := applyBag sizeLast ord }
+
+/-! ### Parse and caller-visible value graphs (C15)
+
+  Inputs, results and `DefaultValue`/`PrefaultValue` are value graphs: `UVal.ref l` points at a `node` cell (a map,
+  slice or pointee), whose entries are scalars or further references.  `ser` is what a caller can see of a value
+  down to a depth (no addresses), `reach` the locations it sees through.
+
+    parseNil   Parse(nil) on a schema with a default: `resolveDefault` hands out a copy of DefaultValue —
+               today `cloneDefaultValue` copies the top level only, the repair copies the whole graph
+    parsePtr   Parse(p) on a pointer-typed / optional / nilable schema: `validatePointer` writes the validated value
+               back through p (`*ptr = v`) and returns p
+    mutate     the caller assigning into a map / slice / pointee it holds -/
+
+def reach : Nat → (Loc → Option Cell) → UVal → List Loc
+  | 0, _, _ => []
+  | _ + 1, _, .scalar _ => []
+  | f + 1, h, .ref l => l :: (readNode h l).flatMap (fun p => reach f h p.2)
+
+/-- serialisation of the visible graph: scalar n ↦ [0,n]; node ↦ [1] ++ (key :: ser child)* ++ [3]; depth cut ↦ [2] -/
+def ser : Nat → (Loc → Option Cell) → UVal → List Nat
+  | 0, _, _ => [2]
+  | _ + 1, _, .scalar n => [0, n]
+  | f + 1, h, .ref l => [1] ++ (readNode h l).flatMap (fun p => p.1 :: ser f h p.2) ++ [3]
+
+/-- deep copy of a value graph down to depth `fuel` (below that the original is shared) -/
+def copyVal : Nat → Store → UVal → Store × UVal
+  | 0, σ, v => (σ, v)
+  | _ + 1, σ, .scalar n => (σ, .scalar n)
+  | f + 1, σ, .ref l =>
+    let acc := (readNode σ.heap l).foldl
+      (fun (acc : Store × List (Nat × UVal)) p => let r := copyVal f acc.1 p.2; (r.1, acc.2 ++ [(p.1, r.2)])) (σ, [])
+    let r := alloc acc.1 (.node acc.2)
+    (r.1, .ref r.2)
+
+/-- depth to which values are followed (the harness builds graphs of depth ≤ 4) -/
+def depth : Nat := 6
+
+/-- `resolveDefault`: the value Parse(nil) returns for a schema with a DefaultValue. -/
+def parseNil (cfg : Cfg) (σ : Store) (s : Schema) : Store × Option UVal :=
+  match s.dflt with
+  | none => (σ, none)
+  | some (.scalar n) => (σ, some (.scalar n))
+  | some (.ref l) =>
+    if cfg.deepDefault then
+      let r := copyVal depth σ (.ref l)
+      (r.1, some r.2)
+    else
+      let r := alloc σ (.node (readNode σ.heap l))       -- mapx.Copy / reflect.Copy: entries shared
+      (r.1, some (.ref r.2))
+
+/-- Parse(p) through `validatePointer`: `*ptr = v` with v the validated value (`ow = none`: no overwrite check,
+    v is the value p already points at), result p. -/
+def parsePtr (σ : Store) (p : Loc) (ow : Option (List (Nat × UVal))) : Store × UVal :=
+  match ow with
+  | none => (write σ p (.node (readNode σ.heap p)), .ref p)
+  | some kv => (write σ p (.node kv), .ref p)
+
+def setKey (kv : List (Nat × UVal)) (k : Nat) (v : UVal) : List (Nat × UVal) :=
+  if kv.any (fun p => p.1 == k) then kv.map (fun p => if p.1 == k then (k, v) else p) else kv ++ [(k, v)]
+
+/-- the caller assigns `m[k] = v` on a map/slice/pointee it holds a reference to -/
+def mutate (σ : Store) (l : Loc) (k : Nat) (v : UVal) : Store :=
+  write σ l (.node (setKey (readNode σ.heap l) k v))
 
 end Gozod.Store
